@@ -158,11 +158,40 @@ structure HReq where
   xffContains : Bool    -- strings.Contains(xffIn, ip)
 deriving Repr
 
-def noOracle : Mux.Oracle := { ρ := fun _ _ => false, allow := fun _ _ => true }
+/-- An `ipfilter.Spec` restricted to address literals (the C11 harness generates no CIDRs; C05
+models the general filter). -/
+structure IPSpec where
+  blockByDefault : Bool
+  allowIPs : List String
+  blockIPs : List String
+deriving DecidableEq, Repr
 
-/-- Assemble the outcome from the three things a request reads. -/
-def serveFrom (rules : Mux.Cfg) (mp : Mapper) (opt : Options) (h : HReq) : Outcome :=
-  match Mux.search noOracle rules h.q with
+/-- `IPFilter.Allow` for literal entries: the decision table of the Go code. -/
+def ipAllow (f : IPSpec) (ip : String) : Bool :=
+  let allowed := f.allowIPs.contains ip
+  let blocked := f.blockIPs.contains ip
+  if allowed && blocked then !f.blockByDefault
+  else if allowed then true
+  else if blocked then false
+  else !f.blockByDefault
+
+/-- The routing part of a generation: the rule tree (IP filters referenced by index) and the
+filter objects built for it by `reload`. -/
+structure Rules where
+  cfg : Mux.Cfg
+  filters : List IPSpec
+deriving DecidableEq, Repr
+
+def Rules.oracle (r : Rules) : Mux.Oracle :=
+  { ρ := fun _ _ => false,
+    allow := fun i ip => match r.filters[i]? with
+      | some f => ipAllow f ip
+      | none => true }
+
+/-- Assemble the outcome from the three things a request reads. By C12's `cache_transparent` the
+route of the cached search equals the cache-less `Mux.search` of the same generation. -/
+def serveFrom (rules : Rules) (mp : Mapper) (opt : Options) (h : HReq) : Outcome :=
+  match Mux.search rules.oracle rules.cfg h.q with
   | .code c => { status := c, handler := "", path := "", xff := "" }
   | .path _ _ e =>
     if mp.backends.contains e.backend then
@@ -170,9 +199,42 @@ def serveFrom (rules : Mux.Cfg) (mp : Mapper) (opt : Options) (h : HReq) : Outco
         xff := if opt.xForwardedFor then appendXFF h.xffIn h.q.ip h.xffContains else h.xffIn }
     else { status := 503, handler := "", path := "", xff := "" }
 
-abbrev HGen := Gen Mux.Cfg Options Mapper
+abbrev HGen := Gen Rules Options Mapper
 
 def serve (g : HGen) (h : HReq) : Outcome := serveFrom g.rules g.mapper g.options h
+
+/-! ### Sequential histories (`reload` and requests that run to completion one after the other) -/
+
+/-- One step of a sequential history. -/
+inductive HOp (R O M : Type) where
+  | reload (g : Gen R O M)
+  | req
+
+/-- The schedule of a sequential history: a reload is `build; store`, the `k`-th request is
+`load k; use k rules; use k mapper; use k options`, each completed before the next op starts. -/
+def seqRun {R O M : Type} (s : St R O M) (k : Nat) : List (HOp R O M) → St R O M
+  | [] => s
+  | .reload g :: rest => seqRun (run s [.build 0 g, .store 0]) k rest
+  | .req :: rest =>
+    seqRun (run s [.load k, .use k .rules, .use k .mapper, .use k .options]) (k + 1) rest
+
+/-- The generation each request of a sequential history is expected to see: the one of the
+last reload completed before it. -/
+def expectedGens {R O M : Type} (g : Gen R O M) : List (HOp R O M) → List (Gen R O M)
+  | [] => []
+  | .reload g' :: rest => expectedGens g' rest
+  | .req :: rest => g :: expectedGens g rest
+
+/-- The empty generation `newMux` starts with: no rules (every request is 404). -/
+def emptyGen (mapperTag : String) : HGen :=
+  { rules := { cfg := {}, filters := [] }, options := { xForwardedFor := false },
+    mapper := { tag := mapperTag, backends := [] } }
+
+/-- Executable: expected outcomes of a sequential history `ops` (`inl g` = reload, `inr q` = request). -/
+def histServe (cur : HGen) : List (Sum HGen HReq) → List Outcome
+  | [] => []
+  | .inl g :: rest => histServe g rest
+  | .inr q :: rest => serve cur q :: histServe cur rest
 
 /-! ## Part 2 — registry -/
 
